@@ -44,6 +44,9 @@ type loggerCase struct {
 	// a symbolic link into another directory: the operating system's meaning of the
 	// path, <dir>/elsewhere/record, is where the record belongs
 	SymlinkDir bool `json:"record_directory_behind_symlink,omitempty"`
+	// the configured record directory lies two or three levels below anything that
+	// exists yet (a fresh machine, the shipped "./logs/rtcm")
+	DeepDir bool `json:"record_directory_several_new_levels,omitempty"`
 	// the event log directory is the same directory as the record's
 	SameDirs bool `json:"event_log_in_the_record_directory,omitempty"`
 	// the first write to the input has this many bytes (the first read gets exactly them)
@@ -139,6 +142,10 @@ func execC16(c *child.Ctx, k loggerCase, cj []byte) {
 	defer os.RemoveAll(dir)
 	logDir := filepath.Join(dir, "record")
 	recRel := "record"
+	if k.DeepDir && !k.SymlinkDir {
+		logDir = filepath.Join(dir, "logs", "rtcm", "station7")
+		recRel = filepath.Join("logs", "rtcm", "station7")
+	}
 	if k.SymlinkDir {
 		os.MkdirAll(filepath.Join(dir, "elsewhere", "sub"), 0755)
 		os.Symlink(filepath.Join(dir, "elsewhere", "sub"), filepath.Join(dir, "link"))
@@ -355,6 +362,10 @@ func monC16(c *child.Ctx, replay json.RawMessage) {
 			c.Count("runs_with_silent_input", 1)
 		}
 		k.StdinNonblock = k.Stdin != "file" && (i%3 == 1 || k.SilenceMs > 0)
+		if i%7 == 5 {
+			k.DeepDir = true
+			c.Count("runs_with_record_directory_several_new_levels_deep", 1)
+		}
 		if i%9 == 4 {
 			k.SymlinkDir = true
 			c.Count("runs_with_record_directory_behind_a_symlink", 1)
